@@ -1,13 +1,35 @@
 use crate::common::{Report, Tier};
 
-pub mod c18;
+macro_rules! registry {
+    ($( $id:literal => $m:ident ),* $(,)?) => {
+        $( pub mod $m; )*
+        fn dispatch_check(id: &str, rep: &mut Report) -> bool {
+            match id {
+                $( $id => { $m::check(rep); true } )*
+                _ => false,
+            }
+        }
+        fn dispatch_replay(id: &str, case: &serde_json::Value) -> Option<i32> {
+            match id {
+                $( $id => Some($m::replay(case)), )*
+                _ => None,
+            }
+        }
+        pub fn all_ids() -> Vec<&'static str> { vec![$( $id ),*] }
+    };
+}
+
+registry! {
+    "C11" => c11,
+    "C12" => c12,
+    "C18" => c18,
+}
 
 pub fn run_check(id: &str, tier: Tier) -> i32 {
     let mut rep = Report::new(id, tier);
-    let r = crate::common::guarded(|| match id {
-        "C18" => c18::check(&mut rep),
-        _ => {
-            eprintln!("unknown or unimplemented property {id}");
+    let r = crate::common::guarded(|| {
+        if !dispatch_check(id, &mut rep) {
+            eprintln!("unknown or unimplemented property {id} (have: {:?})", all_ids());
             rep.machinery_error(format!("no check for {id}"));
         }
     });
@@ -33,9 +55,9 @@ pub fn replay(path: &str) -> i32 {
     let prop = j["property"].as_str().unwrap_or("").to_string();
     println!("replaying {} case: {}", prop, j["what"]);
     crate::common::set_quiet_panics(false);
-    match prop.as_str() {
-        "C18" => c18::replay(&j["case"]),
-        _ => {
+    match dispatch_replay(&prop, &j["case"]) {
+        Some(c) => c,
+        None => {
             eprintln!("no replay for {prop}");
             2
         }
